@@ -13,6 +13,8 @@ mod peer;
 mod props;
 mod report;
 mod runner;
+mod tls;
+mod wire;
 
 use runner::Tier;
 use std::path::PathBuf;
